@@ -117,6 +117,9 @@ func runScenario(ctx *hx.Ctx, w *crashsim.World, scn *crashsim.Scenario, source 
 				report("model-resume:"+res.Pos.Class(), fmt.Sprintf("cut %d (%s): resumed node %s, the model %s", k, res.Pos.Class(), want, m), k, false)
 			}
 		}
+		if res.Sibling {
+			ctx.Cov.Count("cut:sibling-delivered-over-leftovers")
+		}
 		if res.ExtraSet {
 			ctx.Cov.Count("resume:stored-a-block-the-uninterrupted-node-rejected")
 		}
